@@ -109,10 +109,14 @@ def call_sets(tier):
         for v, w in itertools.permutations(vals, 2):
             struct.append(((v, w), ()))
             struct.append(((v,), (('z', w), ('k', 1))))
-    return small + struct
+    # arguments that compare equal but are different values to a serialising keymap (and have different bytes): a key may
+    # not depend on which of them this process has keyed before
+    twins = [((v,), ()) for v in (True, 1.0, 0.0, -0.0, 0, False)] + [((1, v), ()) for v in (True, 1.0, -0.0, 0.0)] + \
+            [((), (('a', v),)) for v in (1.0, True, -0.0, 0.0)]
+    return small + twins + struct
 
 
-def keys_mode(tier, nohash):
+def keys_mode(tier, nohash, order='fwd'):
     import inspect
     import klepto
     import klepto.crypto
@@ -126,21 +130,27 @@ def keys_mode(tier, nohash):
     for kmname, mk, sweep in table:
         for src, f in (functions()[1:2] if sweep else functions()):
             W = klepto.inf_cache(keymap=mk())(f)
-            rows = []
-            for a, kw in calls:
+            rows = {}
+            # (the table is indexed by call; the *order* in which this session asks for the keys is another session's order
+            # reversed -- the key of a call may not depend on what the process has keyed before)
+            idx = list(range(len(calls)))
+            if order == 'rev':
+                idx.reverse()
+            for i in idx:
+                a, kw = calls[i]
                 try:
                     inspect.signature(f).bind(*a, **dict(kw))
                 except TypeError:
                     continue
                 try:
                     k = W.key(*a, **dict(kw))
-                    rows.append(repr(k))
+                    rows[i] = repr(k)
                 except Exception as e:
                     if kmname.startswith('picklemap(json') and isinstance(e, TypeError):
-                        rows.append('unencodable')      # json cannot encode bytes/tuples-as-keys etc.
+                        rows[i] = 'unencodable'      # json cannot encode bytes/tuples-as-keys etc.
                     else:
-                        rows.append('EXC %s %s' % (type(e).__name__, str(e)[:80]))
-            out['%s | %s' % (kmname, src)] = rows
+                        rows[i] = 'EXC %s %s' % (type(e).__name__, str(e)[:80])
+            out['%s | %s' % (kmname, src)] = [rows[i] for i in sorted(rows)]
     json.dump(out, sys.stdout)
 
 
@@ -309,6 +319,6 @@ def e2e_mode(phase, root, which='c17'):
 if __name__ == '__main__':
     mode = sys.argv[1]
     if mode == 'keys':
-        keys_mode(sys.argv[2], sys.argv[3] == 'nohash')
+        keys_mode(sys.argv[2], sys.argv[3] == 'nohash', sys.argv[4] if len(sys.argv) > 4 else 'fwd')
     else:
         e2e_mode(mode, sys.argv[2], sys.argv[3] if len(sys.argv) > 3 else 'c17')
